@@ -485,8 +485,10 @@ class _Stmts:
             elif negated and not (tb and not te):
                 # N2
                 st.test, st.body, st.orelse = t.operand, st.orelse, st.body
-            elif tb == te and isinstance(t, ast.Compare) and len(t.ops) == 1 and type(t.ops[0]) in _POLARITY:
-                # N2 for comparisons: with two arms of the same kind the test is written as == / is not / in (the arms swap)
+            t = st.test
+            tb, te = _terminates(st.body), _terminates(st.orelse)
+            if st.orelse and not tb and not te and isinstance(t, ast.Compare) and len(t.ops) == 1 and type(t.ops[0]) in _POLARITY:
+                # N2 for comparisons: with two arms that both fall through, the test is written as == / is not / in (the arms swap); guard clauses keep their test
                 st.test = ast.copy_location(ast.Compare(left=t.left, ops=[_POLARITY[type(t.ops[0])]()], comparators=t.comparators), t)
                 st.body, st.orelse = st.orelse, st.body
         return st
